@@ -2166,3 +2166,176 @@ package gomatrixserverlib
 //@   requires v.canonicalJSONCheck != nil
 //@   purecallbacks
 //@   ensures delegates-to-table-entry: result == v.canonicalJSONCheck(eventJSON)
+
+// ---------------------------------------------------------------- C18: zero-annotation sweep
+// Functions whose no-panic obligations discharge without any contract beyond a non-nil pointer receiver
+// (generated from `gvc sweep`; `inline`: callers keep seeing the body).
+
+//@ func (*AuthEvents).Create
+//@   property C18:safety
+//@   inline
+//@   requires a != nil
+
+//@ func (*AuthEvents).JoinRules
+//@   property C18:safety
+//@   inline
+//@   requires a != nil
+
+//@ func (*AuthEvents).ThirdPartyInvite
+//@   property C18:safety
+//@   inline
+//@   requires a != nil
+
+//@ func (*AuthEvents).Valid
+//@   property C18:safety
+//@   inline
+//@   requires a != nil
+
+//@ func (*EventBuilder).SetContent
+//@   property C18:safety
+//@   inline
+//@   requires eb != nil
+
+//@ func (*EventBuilder).SetUnsigned
+//@   property C18:safety
+//@   inline
+//@   requires eb != nil
+
+//@ func (*HexString).UnmarshalJSON
+//@   property C18:safety
+//@   inline
+//@   requires h != nil
+
+//@ func (*InviteStrippedState).Content
+//@   property C18:safety
+//@   inline
+//@   requires i != nil
+
+//@ func (*InviteStrippedState).Sender
+//@   property C18:safety
+//@   inline
+//@   requires i != nil
+
+//@ func (*InviteStrippedState).StateKey
+//@   property C18:safety
+//@   inline
+//@   requires i != nil
+
+//@ func (*NotAllowed).Error
+//@   property C18:safety
+//@   inline
+//@   requires a != nil
+
+//@ func (*ProtoEvent).SetUnsigned
+//@   property C18:safety
+//@   inline
+//@   requires pe != nil
+
+//@ func (*PublicKeyLookupRequest).UnmarshalText
+//@   property C18:safety
+//@   inline
+//@   requires r != nil
+
+//@ func (*ServerKeys).UnmarshalJSON
+//@   property C18:safety
+//@   inline
+//@   requires keys != nil
+
+//@ func (*eventReference).UnmarshalJSON
+//@   property C18:safety
+//@   inline
+//@   requires er != nil
+
+//@ func (*eventV1).ToHeaderedJSON
+//@   property C18:safety
+//@   inline
+//@   requires e != nil
+
+//@ func (*levelJSONValue).UnmarshalJSON
+//@   property C18:safety
+//@   inline
+//@   requires v != nil
+
+//@ func (*stateResV2ConflictedOtherHeap).Push
+//@   property C18:safety
+//@   inline
+//@   requires s != nil
+
+//@ func (*stateResV2ConflictedPowerLevelHeap).Push
+//@   property C18:safety
+//@   inline
+//@   requires s != nil
+
+//@ func (*stateResolver).PowerLevels
+//@   property C18:safety
+//@   inline
+//@   requires r != nil
+
+//@ func (*stateResolver).ThirdPartyInvite
+//@   property C18:safety
+//@   inline
+//@   requires r != nil
+
+//@ func (*stateResolverV2).createPowerLevelMainline
+//@   property C18:safety
+//@   inline
+//@   requires r != nil
+
+//@ func (*unredactableEventFieldsV1).GetContent
+//@   property C18:safety
+//@   inline
+//@   requires u != nil
+
+//@ func (*unredactableEventFieldsV2).GetType
+//@   property C18:safety
+//@   inline
+//@   requires u != nil
+
+//@ func (*unredactableEventFieldsV2).SetContent
+//@   property C18:safety
+//@   inline
+//@   requires u != nil
+
+//@ func (AuthChainErr).Error
+//@   property C18:safety
+//@   inline
+
+//@ func (JSONVerifierSelf).VerifyJSONs
+//@   property C18:safety
+//@   inline
+
+//@ func (MissingAuthEventError).Error
+//@   property C18:safety
+//@   inline
+
+//@ func (PerspectiveKeyFetcher).FetcherName
+//@   property C18:safety
+//@   inline
+
+//@ func (StateNeeded).Tuples
+//@   property C18:safety
+//@   inline
+
+//@ func (UnsupportedRoomVersionError).Error
+//@   property C18:safety
+//@   inline
+
+//@ func NewEventFromHeaderedJSON
+//@   property C18:safety
+//@   inline
+
+//@ func ToPDUs
+//@   property C18:safety
+//@   inline
+
+//@ func extractAuthorisedViaServerName
+//@   property C18:safety
+//@   inline
+
+//@ func setDefaultRoomVersionFromJoinEvent
+//@   property C18:safety
+//@   inline
+
+//@ func truncateAuthAndPrevEvents
+//@   property C18:safety
+//@   inline
